@@ -32,6 +32,34 @@ func c12call(c *an.Ctx) {
 			funcKind = k.Val().ExactString()
 		}
 	}
+	ifaceKind := ""
+	if rp := p.Jet.Imports["reflect"]; rp != nil {
+		if k, ok := rp.Types.Scope().Lookup("Interface").(*types.Const); ok {
+			ifaceKind = k.Val().ExactString()
+		}
+	}
+	// module predicates that are exactly `p.Kind() == reflect.Interface && p.IsNil()`
+	nilIfacePred := map[*types.Func]bool{}
+	for _, g := range p.Fns {
+		if g.Pkg != p.Jet || g.Obj == nil || g.Body == nil || g.Sig == nil || g.Sig.Params().Len() != 1 || len(g.Body.List) != 1 {
+			continue
+		}
+		ret, ok := g.Body.List[0].(*ast.ReturnStmt)
+		if !ok || len(ret.Results) != 1 {
+			continue
+		}
+		b, ok := an.Unparen(ret.Results[0]).(*ast.BinaryExpr)
+		if !ok || b.Op != token.LAND {
+			continue
+		}
+		param := g.Sig.Params().At(0)
+		if c12isNilIfaceTest(g.Info(), b, func(r ast.Expr) bool {
+			id, ok := an.Unparen(r).(*ast.Ident)
+			return ok && an.ObjOf(g.Info(), id) == types.Object(param)
+		}, ifaceKind) {
+			nilIfacePred[g.Obj] = true
+		}
+	}
 	if funcKind == "" {
 		c.Undecided("C12.call", "reflect.Func", token.NoPos, "constant reflect.Func not found")
 		return
@@ -82,11 +110,15 @@ func c12call(c *an.Ctx) {
 					calls = append(calls, s)
 				case "(reflect.Value).IsNil", "(reflect.Type).Implements":
 					preds = append(preds, s)
+				default:
+					if callee := an.Callee(info, s); callee != nil && nilIfacePred[callee] {
+						preds = append(preds, s)
+					}
 				case "(reflect.Value).Kind":
 					kindCalls = append(kindCalls, s)
 				}
 			case *ast.BinaryExpr:
-				if s.Op == token.EQL || s.Op == token.NEQ {
+				if s.Op == token.EQL || s.Op == token.NEQ || s.Op == token.LAND {
 					preds = append(preds, s)
 				}
 			case *ast.TypeAssertExpr:
@@ -167,6 +199,41 @@ func c12call(c *an.Ctx) {
 			}
 			return false
 		}
+		// notNilInterface: `v.Kind() == reflect.Interface && v.IsNil()` is known to be false for the value with key vk:
+		// by that test itself, by a module predicate that is that test, by IsNil() false, or by the kind being known
+		notNilInterface := func(x *an.Explorer, vk string, st *an.State) bool {
+			for rk, cur := range st.Regs {
+				if an.PlainKey(rk) == an.PlainKey("eq:"+vk+".Kind()") && cur != "" && cur != ifaceKind {
+					return true
+				}
+			}
+			for _, pc := range preds {
+				switch e := pc.(type) {
+				case *ast.CallExpr:
+					if an.CalleeName(info, e) == "(reflect.Value).IsNil" {
+						if k, ok := x.Key(an.Receiver(e)); ok && k == vk {
+							if t, known := x.Truth(e, st); known && !t {
+								return true
+							}
+						}
+					}
+					if callee := an.Callee(info, e); callee != nil && nilIfacePred[callee] && len(e.Args) == 1 {
+						if k, ok := x.Key(e.Args[0]); ok && k == vk {
+							if t, known := x.Truth(e, st); known && !t {
+								return true
+							}
+						}
+					}
+				case *ast.BinaryExpr:
+					if e.Op == token.LAND && c12isNilIfaceTest(info, e, func(r ast.Expr) bool { k, ok := x.Key(r); return ok && k == vk }, ifaceKind) {
+						if t, known := x.Truth(e, st); known && !t {
+							return true
+						}
+					}
+				}
+			}
+			return false
+		}
 		// typeKey: the key under which facts about v.Type() are recorded — "<v>.Type()", or the local that holds it
 		typeKeys := func(x *an.Explorer, vk string, st *an.State) map[string]bool {
 			out := map[string]bool{vk + ".Type()": true}
@@ -183,12 +250,16 @@ func c12call(c *an.Ctx) {
 				if !ok {
 					return
 				}
-				for k, v := range st.Regs {
-					if strings.HasPrefix(k, "typeof:") && (mentions(v, id.Name) || mentions(k, id.Name)) {
-						st.Set(k, "")
-					}
-					if strings.HasPrefix(k, "nn:") && mentions(k, id.Name) {
-						st.Set(k, "")
+				// (by key, not by name: a helper's parameter may be called like the caller's variable)
+				if ak, ok := x.Key(id); ok {
+					about := func(k string) bool { return k == ak || strings.HasPrefix(k, ak+".") || strings.HasPrefix(k, ak+"[") }
+					for k, v := range st.Regs {
+						if strings.HasPrefix(k, "typeof:") && (about(v) || about(strings.TrimPrefix(k, "typeof:"))) {
+							st.Set(k, "")
+						}
+						if strings.HasPrefix(k, "nn:") && about(strings.TrimPrefix(k, "nn:")) {
+							st.Set(k, "")
+						}
 					}
 				}
 				if rhs == nil {
@@ -453,6 +524,15 @@ func c12call(c *an.Ctx) {
 								}
 							}
 						}
+					}
+					if okHere && isIface {
+						// … and the value is not a nil value *of* an interface type (a field declared as the interface and
+						// never set): its type implements the interface, but Interface() yields a nil interface and the
+						// assertion panics
+						if !notNilInterface(x, vk, st) {
+							fail(an.Str(v) + " may be a nil value of an interface type (v.Kind() == reflect.Interface && v.IsNil() not ruled out): its type implements " + tv.Type.String() + " but there is nothing to assert")
+						}
+						return true
 					}
 					if okHere {
 						return true
@@ -725,4 +805,31 @@ func c12paramNilChecked(p *an.Prog, g *an.Fn, idx int) bool {
 	}})
 	x.Run(nil)
 	return ok && x.Undecided == ""
+}
+
+// c12isNilIfaceTest: b is `R.Kind() == reflect.Interface && R.IsNil()` (either order) for a receiver accepted by isRecv.
+func c12isNilIfaceTest(info *types.Info, b *ast.BinaryExpr, isRecv func(ast.Expr) bool, ifaceKind string) bool {
+	kindOK, nilOK := false, false
+	for _, side := range []ast.Expr{b.X, b.Y} {
+		switch e := an.Unparen(side).(type) {
+		case *ast.BinaryExpr:
+			if e.Op != token.EQL {
+				continue
+			}
+			for _, pr := range [][2]ast.Expr{{e.X, e.Y}, {e.Y, e.X}} {
+				kc, ok := an.Unparen(pr[0]).(*ast.CallExpr)
+				if !ok || an.CalleeName(info, kc) != "(reflect.Value).Kind" || !isRecv(an.Receiver(kc)) {
+					continue
+				}
+				if tv, ok := info.Types[pr[1]]; ok && tv.Value != nil && tv.Value.ExactString() == ifaceKind {
+					kindOK = true
+				}
+			}
+		case *ast.CallExpr:
+			if an.CalleeName(info, e) == "(reflect.Value).IsNil" && isRecv(an.Receiver(e)) {
+				nilOK = true
+			}
+		}
+	}
+	return kindOK && nilOK
 }
